@@ -1479,6 +1479,9 @@ func runC15(c *Ctx) error {
 	c15Sessions(c)
 	c15Concurrent(c)
 
+	// --- chi stream (c15chi.go): prgLabels / block indexing, the model expands the seed itself
+	c15ChiStream(c)
+
 	// --- other build environments (c15env.go): GOARCH=386 child
 	c15Env(c)
 	return nil
